@@ -1028,13 +1028,18 @@ def np_unique(eng, st, args, kwargs):
 def np_arange(eng, st, args, kwargs):
     """np.arange(n) / np.arange(start, stop) with integers: start, start + 1, ..., stop - 1;
     np.arange(0, stop, step) with a positive constant step (real stop): 0, step, 2 step, ... below stop - ceil(stop / step) cells (A1: exact reals)"""
+    as_real = False
     if kwargs:
-        raise OutOfSubset('np.arange with dtype')
+        dt = kwargs.get('dtype')
+        name = getattr(dt, 'name', None) or str(dt)
+        if set(kwargs) != {'dtype'} or not any(t in str(name) for t in ('float', 'int')):
+            raise OutOfSubset('np.arange with keywords other than a numeric dtype')
+        as_real = 'float' in str(name)          # A1: a float index grid holds the exact integers
     if len(args) == 1:
         n = to_num(args[0])
         if not is_int_like(n):
             raise OutOfSubset('np.arange of a non-integer')
-        yield new_ref(st, ArrV((maxv(n, 0),), lambda i: i, 'int')), st
+        yield new_ref(st, ArrV((maxv(n, 0),), (lambda i: to_real(i)) if as_real else (lambda i: i), 'real' if as_real else 'int')), st
         return
     if len(args) == 2 and is_int_like(to_num(args[0])) and is_int_like(to_num(args[1])):
         lo, hi = to_num(args[0]), to_num(args[1])
